@@ -581,9 +581,18 @@ func (e *Exec) evalSel(x ESel, env *Env) Val {
 			continue
 		}
 		ft := su.Field(i).Type()
-		if ptr {
+		if ptr || v.SRef != "" {
 			h, hs, _ := e.fieldHeap(t, i)
-			return Val{T: Sel(e.get(env.st, h, hs), e.asRef(v)), S: e.sortOf(ft), Ty: ft}
+			ref := v.SRef
+			if ptr {
+				ref = e.asRef(v)
+			}
+			if isStructT(ft) {
+				// nested struct: a value (token) that also knows where its fields live
+				sub := e.subRef(h, ref)
+				return Val{T: e.loadStruct(ft, sub, env.st), S: SInt, Ty: ft, SRef: sub}
+			}
+			return Val{T: Sel(e.get(env.st, h, hs), ref), S: e.sortOf(ft), Ty: ft}
 		}
 		proj := e.Out.DeclareFun("SF$"+e.typeName(t)+"."+x.Name, []Sort{SInt}, e.sortOf(ft))
 		return Val{T: App(proj, v.T), S: e.sortOf(ft), Ty: ft}
@@ -745,7 +754,7 @@ func (e *Exec) evalCall(x ECall, env *Env) Val {
 		if cur == old {
 			return boolVal("true")
 		}
-		return boolVal("(forall ((" + r + " Int) (" + i + " Int)) (! (=> (<= " + r + " " + e.top(env.old) + ") (= (select (select " + cur + " " + r + ") " + i + ") (select (select " + old + " " + r + ") " + i + "))) :pattern ((select (select " + cur + " " + r + ") " + i + "))))")
+		return boolVal("(forall ((" + r + " Int) (" + i + " Int)) (! (=> (<= (owner " + r + ") " + e.top(env.old) + ") (= (select (select " + cur + " " + r + ") " + i + ") (select (select " + old + " " + r + ") " + i + "))) :pattern ((select (select " + cur + " " + r + ") " + i + "))))")
 	case "tagof":
 		ts, ok := x.Args[0].(EStr)
 		if !ok {
@@ -1005,6 +1014,16 @@ func (e *Exec) evalLoc(x Expr, env *Env) location {
 		}
 	case ESel:
 		v := e.evalSpec(x.X, env)
+		if v.Ty != nil && v.SRef != "" {
+			if su, ok := v.Ty.Underlying().(*types.Struct); ok {
+				for i := 0; i < su.NumFields(); i++ {
+					if su.Field(i).Name() == x.Name {
+						h, hs, _ := e.fieldHeap(v.Ty, i)
+						return location{kind: "heap", heap: h, hs: hs, ref: v.SRef}
+					}
+				}
+			}
+		}
 		if v.Ty != nil {
 			if p, ok := v.Ty.Underlying().(*types.Pointer); ok {
 				if su, ok := p.Elem().Underlying().(*types.Struct); ok {
